@@ -17,13 +17,20 @@ func init() {
 			"re-registers the interest; (R3) scheduling typestate - the internal timer is armed only under state==ready, state=scheduled and the " +
 			"pendingTimers insertion happen only on the success edge of arming, the expiry closure resets state and removes the timer from " +
 			"pendingTimers before it calls the user function, Unset disarms the timerfd with a zero spec and removes the poller interest on every " +
-			"path on which the interest is set, the armed spec has a zero interval (one-shot), Cancel/Close reach Unset, Scheduled() reports " +
+			"path on which the interest is set, the armed spec has a zero interval (one-shot), Cancel/Close reach Unset, Cancel records " +
+			"stateReady exactly on the success edge of Unset and Close records stateClosed on every path of an open timer, Scheduled() reports " +
 			"state==scheduled; (R4) repetition - the repeating closure re-arms only under !cancelled and after the user callback, Cancel sets the " +
 			"flag on its success path, ScheduleOnce clears it. The stale-batch-entry filter and one-shot dispatch of C01-R3 are shared. " +
 			"Not decided: wall-clock statements (elapsed delay, interval spacing) and that the timer does fire.",
 		Run: runC04,
 	})
 	addMutants("C04",
+		mutant{"Cancel leaves the timer scheduled", "timer.go",
+			"\t\tt.cancelled = true\n\t\tt.state = stateReady\n", "\t\tt.cancelled = true\n", "C04-R3"},
+		mutant{"Cancel records ready before the disarm result is known", "timer.go",
+			"\terr := t.it.Unset()\n\tif err == nil {\n\t\tt.cancelled = true\n\t\tt.state = stateReady\n\t}", "\terr := t.it.Unset()\n\tt.state = stateReady\n\tif err == nil {\n\t\tt.cancelled = true\n\t}", "C04-R3"},
+		mutant{"Close does not record closed", "timer.go",
+			"\t\tt.state = stateClosed\n\t\tdelete(t.ioc.pendingTimers, t)\n", "\t\tdelete(t.ioc.pendingTimers, t)\n", "C04-R3"},
 		mutant{"Cancel revives a closed timer", "timer.go",
 			"\tif t.state == stateClosed {\n\t\t// A closed timer no longer owns its descriptor and cannot be made ready again.\n\t\treturn nil\n\t}\n\n", "", "C04-R1"},
 		mutant{"timer handler ignores the timerfd read", "internal/timer_linux.go",
@@ -303,7 +310,7 @@ func runC04(c *Ctx) {
 	}
 
 	// ------------------------------------------------------------------------------------------------ R3
-	c.rule("C04-R3", "scheduling typestate (arm only when ready; state/pendingTimers follow the success edge; expiry closure resets before the user runs; Unset disarms and removes the interest; one-shot spec; Cancel/Close reach Unset; Scheduled())", 10)
+	c.rule("C04-R3", "scheduling typestate (arm only when ready; state/pendingTimers follow the success edge; expiry closure resets before the user runs; Unset disarms and removes the interest; one-shot spec; Cancel/Close reach Unset; Cancel records ready exactly on success, Close records closed; Scheduled())", 10)
 	for _, fn := range timerFuncs {
 		eachInstr(fn, func(in ssa.Instruction) {
 			if !isArm(in) {
@@ -450,6 +457,118 @@ func runC04(c *Ctx) {
 				}
 			})
 			c.check(reach, fn, "reaches Unset", fn.Pos(), "disarms through Unset", fn.Name()+" does not disarm the internal timer")
+		}
+		// Cancel: stateReady is recorded exactly when Unset succeeded (a failed Unset leaves the timerfd armed: the timer
+		// is still scheduled; a successful one leaves nothing due: Scheduled() must say so and a new schedule be accepted)
+		{
+			var unsetCalls []ssa.Value
+			eachInstr(cancel, func(in ssa.Instruction) {
+				if isCallToFn(in, itUnset) {
+					unsetCalls = append(unsetCalls, in.(ssa.Value))
+				}
+			})
+			isReadyStore := func(x ssa.Instruction) bool {
+				st, ok := x.(*ssa.Store)
+				if !ok {
+					return false
+				}
+				fv, _ := fieldAddrOf(st.Addr)
+				return fv == stateF && isConstInt(st.Val, ready)
+			}
+			for _, a := range storesDeep(cancel, stateF) {
+				if k, ok := constInt(a.Val); !ok || k != ready {
+					continue
+				}
+				g := false
+				for _, uc := range unsetCalls {
+					if guardedNil(a.Instr.Block(), uc) {
+						g = true
+					}
+				}
+				c.check(g, cancel, "state=ready", a.Instr.Pos(), "stored on the success edge of Unset", "Cancel records stateReady although disarming may have failed: the timerfd is still armed, Scheduled() denies the callback that will run and a second schedule is accepted on top of it")
+			}
+			paths, overflow := enumPaths(cancel)
+			if overflow {
+				c.unproven(cancel, "paths", cancel.Pos(), "too many paths")
+			}
+			nOK := 0
+			for _, path := range paths {
+				if path.Panics {
+					continue
+				}
+				var uc ssa.Value
+				recorded := false
+				for _, in := range path.Instrs() {
+					if isCallToFn(in, itUnset) {
+						uc = in.(ssa.Value)
+					}
+					if doesDeep(in, isReadyStore) {
+						recorded = true
+					}
+				}
+				if uc == nil {
+					continue
+				}
+				failed := false
+				for _, l := range path.Lits {
+					if x, eq, ok := l.nilTest(); ok && !eq {
+						for _, leaf := range phiLeaves(resolveCell(path.eval(x, l.At))) {
+							if resolveCell(leaf) == uc {
+								failed = true
+							}
+						}
+					}
+				}
+				if failed {
+					continue
+				}
+				nOK++
+				c.check(recorded, cancel, "cancel bookkeeping", exitPos(path.Ret()), "a successful Unset is followed by state = stateReady", "Cancel disarms the timer but leaves it scheduled: Scheduled() reports a callback that will never run and every later ScheduleOnce is refused")
+			}
+			if nOK == 0 {
+				c.bad(cancel, "cancel bookkeeping", cancel.Pos(), "Cancel has no path on which Unset succeeds")
+			}
+		}
+		// Close: every path of a not yet closed timer records stateClosed
+		{
+			isClosedStore := func(x ssa.Instruction) bool {
+				st, ok := x.(*ssa.Store)
+				if !ok {
+					return false
+				}
+				fv, _ := fieldAddrOf(st.Addr)
+				return fv == stateF && isConstInt(st.Val, closedK)
+			}
+			paths, overflow := enumPaths(closeT)
+			if overflow {
+				c.unproven(closeT, "paths", closeT.Pos(), "too many paths")
+			}
+			n := 0
+			for _, path := range paths {
+				if path.Panics {
+					continue
+				}
+				already := false
+				for _, l := range path.Lits {
+					if k, eq, ok := enumTest(l.Lit, stateF); ok && eq && k == closedK {
+						already = true
+					}
+				}
+				if already {
+					continue
+				}
+				n++
+				recorded := false
+				for _, in := range path.Instrs() {
+					if doesDeep(in, isClosedStore) {
+						recorded = true
+					}
+				}
+				c.check(recorded, closeT, "close bookkeeping", exitPos(path.Ret()), "Close records stateClosed", "Close returns without recording stateClosed: the timer can be scheduled again on a descriptor it no longer owns")
+			}
+			if n == 0 {
+				c.bad(closeT, "close bookkeeping", closeT.Pos(), "Close has no path for an open timer")
+			}
 		}
 		// Scheduled()
 		sf := p.Method("sonic", "Timer", "Scheduled")
